@@ -1,5 +1,5 @@
 CONTRACTS = 'contracts.pool'
-B = 'AutoCarver/discretizers/utils/base_discretizers.py'
+B = 'AutoCarver/discretizers/utils/base_discretizers.py'; Q = 'AutoCarver/discretizers/utils/quantitative_discretizers.py'
 ASYNC_ARGS = '''                        (
                             feature,
                             X[feature],
@@ -17,5 +17,10 @@ MUTANTS = [
  (B, ASYNC_ARGS, ASYNC_ARGS.replace('X[feature],', 'X[self.quantitative_features[0]],'), None),
  (B, '                all_transformed = [result.get() for result in all_transformed_async]', '                all_transformed = [result.get() for result in all_transformed_async[1:]]', None),
  (B, '                all_transformed = [result.get() for result in all_transformed_async]', '                all_transformed = [all_transformed_async[0].get() for result in all_transformed_async]', None),
+ (Q, '                    self.quantitative_features,\n                )', '                    self.quantitative_features[1:],\n                )', None),
+ (Q, '        self.values_orders.update({feature: order for (feature, order) in all_orders})', '        self.values_orders.update({feature: order for (feature, order) in all_orders[1:]})', None),
+ (Q, '        self.values_orders.update({feature: order for (feature, order) in all_orders})', '        self.values_orders.update({order[0]: order for (feature, order) in all_orders})', None),
+ (Q, '                        fit_feature, X=X[self.quantitative_features], q=self.q, str_nan=self.str_nan\n                    ),', '                        fit_feature, X=X[self.quantitative_features].dropna(how="all"), q=self.q, str_nan=self.str_nan\n                    ),', None),
+ (Q, '                    feature, X=X[self.quantitative_features], q=self.q, str_nan=self.str_nan\n                )', '                    feature, X=X[self.quantitative_features], q=self.q, str_nan=feature\n                )', None),
 ]
 # semantically equivalent, correctly NOT reported: handing `dict(self.values_orders)` (an equal copy) to the sequential branch
